@@ -52,6 +52,11 @@ CHECKS['C20'] = ('model_checking', '§5 C20',
     'Python json / fractions / int / chr and the civil-from-days algorithm are the references; JSON numbers compared as doubles, key order ignored; datetime fractions restricted to exactly representable ones.',
     'bounded-exhaustive enumeration vs independent reference implementations (incl. a full sweep of the documented day range)')
 
+CHECKS['C19'] = ('model_checking', '§5 C19',
+    'Laws over every same-type pair (and triples of the smallest values) of complete small universes per static type (int, str, float, bool, tuples, Sequence incl. lazy representations of the same list, Optional, Stack, Set, Mapping, nested types): eq reflexive/symmetric/transitive, eq => equal hash, hash range, cmp antisymmetric/transitive/lexicographic and consistent with the relational operators and min/max, to_str shape, format(x,"")==to_str(x). The complete product of the format-specifier grammar (fill x align x sign x # x 0 x width x grouping x mode; precision for floats) against a formatter written from the book (Python format() for floats/strings, which shares the grammar). Sorting: all lists over {0,1,2} up to length 6/8, stability on (key, tag) pairs, preorder comparators, order statistics, and structured lists (lengths 9..200: runs split at every position, descending runs of every length) against a stable reference. Failing comparator: for each list, a violation (call limit) at the k-th comparator call for every k and an error value at every distinct compared pair; the outcome must be exactly that failure and the accounted byte level must return to its pre-call value (no element lost, duplicated or leaked).',
+    'Facets the book leaves open are not compared (grouping with non-decimal modes, # without mode, X digit case, shape of scientific notation, rank base of nth_smallest). The accounted level read through the hook is the witness for element loss/duplication.',
+    'bounded-exhaustive law checking over complete universes + fault-point enumeration (failure at every comparison)')
+
 NA = {
 }
 
